@@ -1,8 +1,13 @@
 mod checks;
+mod explore;
+mod model;
 mod infra;
 mod langs;
 mod ordspell;
 mod spell;
+mod stream;
+mod vocab;
+mod vocab_lits;
 
 use infra::Tier;
 use langs::L;
@@ -41,6 +46,10 @@ fn main() {
     };
     let code = match args[1].as_str() {
         "C01" => checks::c01::run(tier),
+        "C12" => checks::c12::run(tier),
+        "C06" => checks::c06::run(tier),
+        "C03" => checks::c03::run(tier),
+        "c03-child" => checks::c03::child(&args[2..]),
         "probe" => {
             probe(&args[2..]);
             0
